@@ -302,6 +302,14 @@ def operator_call(em, n, rd, args):
     if rd.get('name') in ('operator==', 'operator!=') and len(args) == 2 and _is_vecit(em, args[0]) and _is_vecit(em, args[1]):
         em.lowerings['M-vec(iterator compare)'] += 1
         return '((%s).idx %s (%s).idx)' % (em.E(args[0]), rd['name'][8:], em.E(args[1]))
+    if rd.get('name') in ('operator+', 'operator-') and len(args) == 2 and _is_vecit(em, args[0]) and not _is_vecit(em, args[1]):
+        # random-access step: begin() + n designates position n of the same sequence
+        em.lowerings['M-vec(iterator %s n)' % rd['name'][8:]] += 1
+        a_ = em.E(args[0])
+        return '({ __typeof__(%s) __it = (%s); __it.idx = __it.idx %s (%s); __it; })' % (a_, a_, rd['name'][8:], em.E(args[1]))
+    if rd.get('name') == 'operator-' and len(args) == 2 and _is_vecit(em, args[0]) and _is_vecit(em, args[1]):
+        em.lowerings['M-vec(iterator difference)'] += 1
+        return '((long)((%s).idx) - (long)((%s).idx))' % (em.E(args[0]), em.E(args[1]))
     if rd.get('name') == 'operator*' and len(args) == 1 and _is_vecit(em, args[0]):
         em.lowerings['M-vec(iterator deref)'] += 1
         a_ = em.E(args[0])
